@@ -432,9 +432,9 @@ def check_history(case):
 SUBCHECKS = [
     Sub("exhaustive", check, enumerate=exhaustive,
         note="all sequences up to 4 (quick) / 6 (thorough) molecules over 5 species x all load orders"),
-    Sub("random", check, strategy=lambda tier: random_case(tier), quick=400, thorough=6000,
+    Sub("random", check, strategy=lambda tier: random_case(tier), quick=800, thorough=18000,
         min_share={"interleaved": 0.15}),
-    Sub("history", check_history, strategy=lambda tier: history_case(tier), quick=600, thorough=8000,
+    Sub("history", check_history, strategy=lambda tier: history_case(tier), quick=1200, thorough=40000,
         min_share={"walk-then-load": 0.2},
         note="topologies added one by one (add_ftop with a path or an open file, add_molecule_top) between accesses"),
 ]
